@@ -132,7 +132,7 @@ PROPS = {
                   "(iter_by_node, iter_by_rrset, soa, ns) compared before/after rejected adds and at the end",
         rule="add sequences of 5-40 records over a 4-label alphabet with out-of-zone owners, parent-of-apex owners, class "
              "mismatches, TTL mismatches (incl. TTLs with the top bit set), duplicates and case variants of owners and RDATA "
-             "names; evaluations = add operations + final comparisons; distinct = (node count, RRset count, SOA count) classes; a quarter of the labels come from the edges of the letter ranges and their case-bit neighbours (z, Z, y, zz, aZ, @, [, `, {, 0, -, 0xc1)",
+             "names; evaluations = add operations + final comparisons; distinct = (node count, RRset count, SOA count) classes; a quarter of the labels come from the edges of the letter ranges and their case-bit neighbours (z, Z, y, zz, aZ, @, [, `, {, 0, -, 0xc1); hostile adds include out-of-zone owners with a label that spells the apex's wire form",
         assumptions=COMMON_ASSUMPTIONS,
         quick=plans(dict(build="dbg", nshards=16), dict(build="miri", nshards=4, timeout=900)),
         thorough=plans(dict(build="dbg", nshards=16), dict(build="rel", nshards=16), dict(build="asan", nshards=16, scale=0.2), dict(build="miri", nshards=16, timeout=3000)),
@@ -237,7 +237,7 @@ PROPS = {
              "owner, omitted/reordered TTL and class, TYPEnnn/CLASSnnn, random mnemonic case, relative names, @, $ORIGIN "
              "(relative too) and $TTL lines, parentheses opened at any field with line breaks and comments inside, quoted and "
              "unquoted strings, \\DDD and \\c escapes, generic RDATA with 1-4 hex words, CRLF files, tabs, no final newline; input "
-             "fed through a Read that returns 1-7 octets per call half of the time. distinct = sets of presentation features used",
+             "fed through a Read that returns 1-7 octets per call half of the time. distinct = sets of presentation features used; one name in 25 is built to end at exactly 255 / 254 / 250 octets below the origin",
         assumptions=COMMON_ASSUMPTIONS + ["F is the trusted base: it renders only constructs defined by RFC 1035 §5.1, RFC 2308 §4 ($TTL) and RFC 3597 §5"],
         quick=plans(dict(build="dbg", nshards=16), dict(build="miri", nshards=4, timeout=900)),
         thorough=plans(dict(build="dbg", nshards=16), dict(build="rel", nshards=16), dict(build="asan", nshards=16, scale=0.2), dict(build="miri", nshards=16, timeout=3000)),
@@ -250,7 +250,7 @@ PROPS = {
              "mnemonics incl. NULL/OPT/TSIG and TYPE10/41/250, \\#, numbers, addresses), and F-rendered valid files with 1-3 "
              "mutations (truncate, delete, insert, replace, forbidden type substituted). Every yielded record must have a type "
              "other than NULL/OPT/TSIG and RDATA accepted by the reference validators; nothing may follow an error. "
-             "distinct = (input kind, records yielded, ended in error); every input is also parsed through Parser::records_only() (same records and line numbers up to the first $INCLUDE or error, then exactly one error, then nothing), and a sixth of the inputs get a well-formed or malformed $INCLUDE line inserted at a line boundary",
+             "distinct = (input kind, records yielded, ended in error); every input is also parsed through Parser::records_only() (same records and line numbers up to the first $INCLUDE or error, then exactly one error, then nothing), and a sixth of the inputs get a well-formed or malformed $INCLUDE line inserted at a line boundary; a sixth of the inputs are 'long-relative' files: an origin of 2-254 octets and a relative owner / NS / MX target / second $ORIGIN completing to 250-262 octets, in 63-octet or one-octet labels",
         assumptions=COMMON_ASSUMPTIONS + ["termination is bounded by the finite input; a watchdog firing would be reported as inconclusive"],
         quick=plans(dict(build="dbg", nshards=16), dict(build="miri", nshards=4, timeout=900)),
         thorough=plans(dict(build="dbg", nshards=16), dict(build="rel", nshards=16), dict(build="asan", nshards=16, scale=0.2), dict(build="miri", nshards=16, timeout=3000)),
@@ -360,7 +360,7 @@ PROPS = {
              "octet / 1-3 octets / 1-700 octets per segment with delays up to 50 ms (read timeout is 5 s). UDP batch: 1-3 "
              "client sockets x 1-6 datagrams with unique IDs; every datagram received must come from the server address, match "
              "an outstanding ID once, equal the reference response and fit the payload size; missing datagrams are not "
-             "violations. distinct = (provider, batch shape) classes; a fourteenth of the TCP requests are padded to 65535 / 65534 / 65533 / 65532 / 32768 / 16384 / 16383 / 4096 octets. Known finding (open): when the server closes after a response-less request while further client octets are unread, whole earlier responses may be lost to the reset; that exact shape is reported as KNOWN-FINDING, every other difference as a violation",
+             "violations. distinct = (provider, batch shape) classes; a fourteenth of the TCP requests are padded to 65535 / 65534 / 65533 / 65532 / 32768 / 16384 / 16383 / 4096 octets. Known finding (open): when the server closes after a response-less request while further client octets are unread, whole earlier responses may be lost to the reset; that exact shape is reported as KNOWN-FINDING, every other difference as a violation; batches with boundary-length requests are written in segments of 4 000-30 000 octets, and a batch whose writing took more than 4 s is not judged (the statement's premise is arrival within the 5 s read timeout)",
         assumptions=COMMON_ASSUMPTIONS + [
             "timeouts of the harness (connect 5 s, read 8 s) make a batch inconclusive, never violated",
             "nightly builds (ASan/TSan) exclude the Tokio provider: proc-macro2 1.0.51 does not compile on the nightly toolchain"],
@@ -450,7 +450,7 @@ PROPS = {
              "checked against validate(); a hand-encoded message with 1-4 records (compressed names) read with "
              "Rdata::read at the true span, neighbouring lengths/cursors, as a different type, at/after the end of the "
              "message, random (cursor,RDLENGTH) and after damaging one octet; and 1-5 valid records written by the Writer "
-             "in a random compression mode and read back. distinct = (operation, class, type, verdict) classes; valid RDATA is also validated and read under other classes (IN, CH, HS, NONE, ANY, 0, 65280) than the one it was shaped for",
+             "in a random compression mode and read back. distinct = (operation, class, type, verdict) classes; valid RDATA is also validated and read under other classes (IN, CH, HS, NONE, ANY, 0, 65280) than the one it was shaped for; a third of the write/read round-trip messages have a size limit of 40-400 octets, so that some writes fail in the middle of their RDATA and later records are written after a rollback",
         assumptions=COMMON_ASSUMPTIONS + ["under standard (case-insensitive) compression, read-back names are compared ignoring ASCII case"],
         quick=plans(dict(build="dbg", nshards=16), dict(build="miri", nshards=4, timeout=900)),
         thorough=plans(dict(build="dbg", nshards=16), dict(build="rel", nshards=16),
